@@ -26,6 +26,8 @@ class C08(JournalCheck):
         "crash points are the boundaries of Cursor.execute and Connection.commit calls; instants inside one SQLite call are not enumerated",
         "byte-identical file images are reopened once and the verdict reused for every crash point that has the same image",
         "the model is the intended semantics: an operation that returned is durable (so today's uncommitted set_seq_num is reported)",
+        "a run stops at its first violation; half of the runs (cfg closes_first) evaluate their normal-close checkpoints before their "
+        "crash points so that the normal-close sentence of the property is not masked by an earlier crash point",
         "avoidance knob (DESIGN 5): 30% of runs generate no set_seq_num/reset so the space behind that finding stays explored",
         "thorough tier: 20 (history, crash point) pairs are re-executed in a forked child that os._exit(9)s at the boundary and "
         "compared with the snapshot (validates the crash model; disagreement is a harness error)",
